@@ -65,10 +65,8 @@ def conv_config(rng, D, equivariance=False, max_k_sum=None):
         if not has_even:
             pads += [None, "TORUS", "SAME", None, "TORUS", "SAME"]
         pk = pick(rng, pads)
-        if lhs is not None and pk in ("TORUS",):
-            # statement excludes string TORUS with image dilation in C01; C04 keeps it as a separate cell
-            if equivariance:
-                pk = "explicit"
+        # string TORUS together with image dilation is kept in both modes: C01's statement only excludes image dilation
+        # from the *translation* part (the group part covers every symmetric boundary treatment x image dilation)
         if pk == "int":
             padding = int(rng.integers(0, 4))
         elif pk == "explicit":
